@@ -33,6 +33,18 @@ CHECKS = {
          "clone is an operation of the random histories (also with injected Clone panics); afterwards every existing world is fully observed after every step (dump, snapshot, probes incl. each other's handles and direct handles), so any leak of an operation into the other world is a contract violation; the clone must have the source's len, capacity, handles, values and pending events.", "6 C13"),
  "C17": ("model_checking", "trace validation of event logs in an `events` build",
          "With feature events the per-archetype created/destroyed lists and the world-level iterators (with size_hint after every next()) are recorded after every step and compared by TLC with the contract's pending-event sets (both creation paths, 4 destroy key kinds, ecs_iter_destroy!, per-archetype and world clears).", "6 C17"),
+ "C05": ("translation_validation", "TLC enumeration of (declaration, query) programs vs. the real generators (library-driven + compiled sample)",
+         "Match.tla transcribes archetype selection and OneOf binding; TLC enumerates every declaration of 1..2 (thorough 3) archetypes over a component pool x every parameter list up to length 2 over components/OneOf/typed, wildcard and dynamic entity and direct parameters, checks soundness and completeness of the matched set on the model, and every program is run through the real parser and all five real query generators (matched archetypes, per-parameter binding, error class incl. precedence); a stratified sample is compiled under forbid(unsafe_code) and executed (which entities the closure ran for, what each parameter was bound to, find on unmatched archetypes returns None without running the closure, negative programs fail to compile).", "6 C05"),
+ "C14": ("exploration", "TLC-checked conversion laws + TLC-enumerated boundary classes replayed on the real conversions",
+         "HandleMC.tla checks pack/unpack, raw round trip, TryFrom faithfulness, Select tables and Eq/Hash laws exhaustively at reduced widths and enumerates boundary classes at the real widths (positions 0,1,2,2^24-2,2^24-1 x ids 0..5,254,255 x generations 0,1,2,2^16,2^31,2^32-2,2^32-1) with expected outcomes; the harness runs every representative and seeded random class members through from_raw/raw/archetype_id/TryFrom/from_any/into_any/reference conversions/SelectArchetype/SelectEntity/SelectEntityDirect/HashSet/HashMap; per class, not per value (encode/decode over 2^64 values is outside what a model enumerates).", "6 C14"),
+ "C15": ("translation_validation", "TLC enumeration of id declarations vs. the real DataWorld::new and compiled constants",
+         "Ids.tla transcribes the discriminant rule with collision and 255-overflow errors; TLC enumerates every declaration of up to 3 items with explicit ids in any order and cfg-disabled items under every assignment, checks distinctness and the rule on the model, and every declaration is pushed through the real DataWorld::new at archetype and component level; a sample is compiled: ARCHETYPE_ID, COMPONENT_ID, ecs_component_id!, archetype_id() of created handles, Select* conversions, and the two compile errors.", "6 C15"),
+ "C16": ("translation_validation", "TLC enumeration of cfg-decorated programs x assignments vs. their reduced twins through the real macros",
+         "Reduce (Ids.tla, MatchCfgMC.tla) deletes disabled items and strips enabled attributes; TLC enumerates decorated declarations and decorated query parameter lists with every truth assignment and the outcome of the reduced twin; decorated program and twin both go through the real generators, and a sample is compiled and executed with the assignment realised by cfg(all())/cfg(any()) and by --cfg flags. Known finding: any cfg on a OneOf parameter is a compile error.", "6 C16"),
+ "C18": ("exploration", "token scan of every enumerated expansion + TLC-enumerated holder/intruder client programs compiled by rustc",
+         "PARTIAL. (a) every token stream the real world/query generators produce for the C05/C15/C16 enumerations is scanned for the `unsafe` keyword and every end-to-end crate is compiled under #![forbid(unsafe_code)]. (b) ClientMC.tla enumerates (holder, intruder, order) client programs with the aliasing rule as verdict; each is compiled: the unsound ones must be rejected with the expected error class, their sound twins must compile; plus a hand-written corpus of unsound/sound pairs (structural change inside a closure, two mutable accesses to one column, &mut entity parameters, smuggled references, worlds across threads, auto-trait facts). Whether rustc rejects a program is decided by rustc; TLA+ contributes the enumeration and pairing only.", "7"),
+ "C19": ("model_checking", "the runtime trace validation repeated per feature set x profile with the contract constants set per build",
+         "The harness is rebuilt under feature sets x {debug, release} (quick: none/all x debug/release; thorough: all 16); each build records random histories and overflow-boundary histories (preset hook) that TLC validates against the same contract with events / wrapping / debug flags read from the trace header, i.e. events only adds event observations, wrapping_version only replaces the overflow panic by the documented wrap, 32_components only adds columns, release only turns debug-only panics into None.", "6 C19"),
 }
 
 def main():
